@@ -27,6 +27,9 @@ pub fn run<A: Cx>(d: &mut Drv<A>, scale: usize, all_offsets: bool, masking: bool
     // sequences that STORE alternative bit patterns (only a raw image gets them in): every symbol is
     // transformed as the symbol it is, whatever pattern holds it
     if !d.alt_patterns().is_empty() {
+        // (whether such a value is == to the sequence rebuilt from its symbols is the known finding D12 and
+        // belongs to C02's tagged scenario: the structural-equality part of the view is off in this block)
+        d.nocanon = true;
         let all = d.patterns();
         let alts = d.alt_patterns();
         for n in [1usize, 3, 64 / w, 64 / w + 1, 2 * 64 / w + 3] {
@@ -41,6 +44,7 @@ pub fn run<A: Cx>(d: &mut Drv<A>, scale: usize, all_offsets: bool, masking: bool
             }
             d.obs(whole(0));
         }
+        d.nocanon = false;
     }
     for _ in 0..scale.max(1) {
         for &n in &lens {
